@@ -254,6 +254,10 @@ type Store struct {
 	AccessTTL       time.Duration
 	RefreshTTL      time.Duration
 	SharedSnapshots bool
+	// NaiveSecrets makes AuthorizeClientIDSecret a plain string comparison with the stored secret, as the
+	// repository's example storage does: a client stored without a secret "matches" the empty secret. The default
+	// (false) refuses every client that has no secret.
+	NaiveSecrets bool
 	SessionState    string // non-empty: auth requests implement AuthRequestSessionState with this value
 	PrivateClaims   map[string]any
 	UserinfoClaims  map[string]any
@@ -1021,7 +1025,7 @@ func (s *Store) AuthorizeClientIDSecret(ctx context.Context, clientID, clientSec
 		s.leave(idx, "", err)
 		return err
 	}
-	if c.Secret == "" || c.Secret != clientSecret {
+	if (c.Secret == "" && !s.NaiveSecrets) || c.Secret != clientSecret {
 		err := errors.New("vstore: invalid secret")
 		s.leave(idx, "", err)
 		return err
